@@ -1,5 +1,6 @@
 import NurbsVerif.Model.Shape
 import NurbsVerif.Model.Knots2
+import NurbsVerif.Model.DecomposeE
 import NurbsVerif.Model.RefineA54
 import NurbsVerif.Model.InsertA51
 import NurbsVerif.Model.Transform
@@ -169,7 +170,8 @@ def handleShape (toks : List String) : Option String :=
       | [dir, u] =>
           let dir ← dir.toNat?; let u ← parseRat u
           if !shapeOk S || dir ≥ S.pdim then return "ERR"
-          match splitDir S dir u tolMult with
+          -- `splitDirE`: `splitDir` plus the `ValueError` of the code for a parameter of multiplicity > p
+          match splitDirE S dir u tolMult with
           | some (a, b) => return s!"{showShape a} # {showShape b}"
           | none => return "ERR"
       | _ => none
@@ -179,11 +181,15 @@ def handleShape (toks : List String) : Option String :=
       | [dirs] =>
           if !shapeOk S then return "ERR"
           let fuelOf (d : Nat) (T : Shape Rat) := (T.kv d).length
-          let pieces : List (Shape Rat) :=
-            if dirs == "u" then decomposeDir 0 tolMult (fuelOf 0 S) S
-            else if dirs == "v" then decomposeDir 1 tolMult (fuelOf 1 S) S
-            else decomposeUV tolMult S
-          return " # ".intercalate (pieces.map showShape)
+          -- `decomposeDirE` / `decomposeUVE`: `decomposeDir` / `decomposeUV` with the exceptions of the code
+          -- (`none` = the implementation raises: first interior knot on a domain end, or multiplicity > p)
+          let pieces : Option (List (Shape Rat)) :=
+            if dirs == "u" then decomposeDirE 0 tolMult (fuelOf 0 S) S
+            else if dirs == "v" then decomposeDirE 1 tolMult (fuelOf 1 S) S
+            else decomposeUVE tolMult S
+          match pieces with
+          | some ps => return " # ".intercalate (ps.map showShape)
+          | none => return "ERR"
       | _ => none
   | _ => none
 
